@@ -220,7 +220,7 @@ fn run(ctx: &mut Ctx) {
     let n = ctx.n(2500, 120_000);
     ctx.run("groups", n, case_strategy, oracle);
     let n = ctx.n(10_000, 1_000_000);
-    ctx.run("translate", n, || (expr(), 0u32..20, 0u32..20).prop_map(|(ast, dr, dc)| HookCase { ast, dr, dc }), oracle_hook);
+    ctx.run_fast("translate", n, || (expr(), 0u32..20, 0u32..20).prop_map(|(ast, dr, dc)| HookCase { ast, dr, dc }), oracle_hook);
     ctx.assumptions.push("the master is the top-left cell of ref and precedes its members in document order; si values ascend in order of appearance; references stay inside the sheet after translation; unquoted sheet names are plain identifiers that do not look like cell references (Excel quotes the others)".into());
     ctx.assumptions.push("whole-row/whole-column references, structured table references and R1C1 text are outside the generated grammar".into());
 }
